@@ -395,6 +395,24 @@ async def c14_run_coro_exit(w):
     return {"reproduced": rep, "observed": {"calls": [c[0] for c in calls], "left": left}, "expected": exp}
 
 
+async def c08_event_fire(w):
+    """event.fire(type, **kwargs): the emitted event carries exactly the given parameters."""
+    from homeassistant.core import Context
+    from custom_components.pyscript.function import Function
+    hass = await boot()
+    kwargs = {"x": 1, "y": "two"}
+    expect = dict(kwargs)
+    if w["context_kw"] == "Context":
+        kwargs["context"] = Context()
+    elif w["context_kw"] == "other-value":
+        kwargs["context"] = "front_door"
+        expect["context"] = "front_door"
+    await Function.event_fire("my_event", **kwargs)
+    await shutdown()
+    got = hass.bus.fired[0][1] if hass.bus.fired else None
+    return {"reproduced": got != expect, "observed": {"event_data": got}, "expected": {"event_data": expect}}
+
+
 SCENARIOS = {k: v for k, v in list(globals().items()) if asyncio.iscoroutinefunction(v) and k[0] == "c"}
 
 if __name__ == "__main__":
